@@ -1,5 +1,6 @@
 ---- MODULE MC_q_uniform ----
 EXTENDS MCOFWire
 TheCases == Uniform(TopKindsOF) \cup Empty(TopKindsOF) \cup Outputs(0) \cup NXUniform(TopKindsNX)
+TheRCases == {}
 TheAround == AroundBoth
 ====
